@@ -47,6 +47,23 @@ def make_zip(rng, path, corrupt=None):
         data = bytes(b)
     elif corrupt == "garbage":
         data = b"not a zip at all"
+    elif corrupt == "badmember" and len(members) >= 2:
+        # the central directory is fine but one member cannot be opened (marked encrypted): that member is skipped,
+        # every other member and every other entry of the directory is still listed
+        import struct
+        b = bytearray(data)
+        eocd = data.rfind(b"PK\x05\x06")
+        off = struct.unpack_from("<I", data, eocd + 16)[0]
+        k = rng.randrange(len(members))
+        for i in range(len(members)):
+            assert b[off:off + 4] == b"PK\x01\x02"
+            nl, el, cl = struct.unpack_from("<HHH", b, off + 28)
+            if i == k:
+                fl = struct.unpack_from("<H", b, off + 8)[0]
+                struct.pack_into("<H", b, off + 8, fl | 1)
+            off += 46 + nl + el + cl
+        data = bytes(b)
+        del members[k]
     with open(path, "wb") as f:
         f.write(data)
     return members
@@ -64,10 +81,12 @@ def gen_case(ctx, idx):
         d = rng.choice(dirs)
         ext = rng.choice(ZIP_EXTS + [".ZIP", ".Jar"])
         name = "arch%d%s" % (i, ext)
-        corrupt = rng.choice([None, None, None, "truncate", "flip", "garbage"])
+        corrupt = rng.choice([None, None, None, "truncate", "flip", "garbage", "badmember", "badmember"])
         p = os.path.join(d, name)
         m = make_zip(rng, p, corrupt)
-        if corrupt:
+        if corrupt == "badmember":
+            ctx.badmember_count = getattr(ctx, "badmember_count", 0) + 1
+        if corrupt and corrupt != "badmember":
             corrupts.add(p)
         else:
             zips[p] = m
@@ -199,8 +218,9 @@ def run(ctx):
     else:
         st["agreed"] += 1
         st["hist"]["truncation_points"] = len(list(points))
+    st["hist"]["archives_with_unopenable_member"] = getattr(ctx, "badmember_count", 0)
     ctx.coverage.update(
         evaluations=st["evaluations"], distinct_nontrivial=len(st["distinct"]), traces_validated_against_impl=st["agreed"],
-        rule="random trees with 1-4 zip archives (0-8 members: nested dirs, stored/deflated, every file type and permission bits in the unix mode, dates across months incl. months shorter than today's day, unicode/space names), extensions .zip/.jar/.war/.ear in mixed case, a zip under another extension, a directory named *.zip, corrupt archives (truncated, flipped central-directory bytes, garbage) x bfs/dfs x maxdepth: ordinary rows unchanged, members exactly once after their archive in index order, member columns (name, size, is_dir, mode, modified) = what the archive stores, WHERE/ORDER BY/LIMIT apply; exact row sequence vs model.Walk; plus every truncation point of one archive. non-trivial = at least two members",
+        rule="random trees with 1-4 zip archives (0-8 members: nested dirs, stored/deflated, every file type and permission bits in the unix mode, dates across months incl. months shorter than today's day, unicode/space names), extensions .zip/.jar/.war/.ear in mixed case, a zip under another extension, a directory named *.zip, corrupt archives (truncated, flipped central-directory bytes, garbage), archives with one member that cannot be opened (marked encrypted; it is skipped, the rest listed) x bfs/dfs x maxdepth: ordinary rows unchanged, members exactly once after their archive in index order, member columns (name, size, is_dir, mode, modified) = what the archive stores, WHERE/ORDER BY/LIMIT apply; exact row sequence vs model.Walk; plus every truncation point of one archive. non-trivial = at least two members",
         samples=st["samples"], distribution=dict(st["hist"]))
     return ctx.finish(trusted=["the zip listing (which members a readable archive has) is an input: Python zipfile writes the archives, the zip crate reads them; corrupt archives are only required not to abort or lose other rows"])
